@@ -142,6 +142,10 @@ def build_prior(case):
                     unit = bad_unit2(name)
                 if m["what"] == "altunit":
                     unit = alt_unit(name)
+                if m["what"] == "badtag":
+                    # a mis-typed unit tag: not a unit object at all
+                    g = good_unit(name)
+                    unit = {"str": g.to_string(), "quantity": 10 * g, "tuple": (g, g), "number": 1.0}[m["tag"]]
             var = make_var(name, kind)
             if not (m is not None and m["what"] == "nounit"):
                 var = xu.with_unit(var, unit)
@@ -491,6 +495,8 @@ def single_mutilations(pt_, no):
     out = []
     for name in ("e", "omega", "M0"):
         out.append(dict(name=name, what="badunit2"))
+    for name, tag in (("K", "str"), ("P", "quantity"), ("v0", "tuple"), ("e", "number"), ("omega", "str")) + ((("dv0_1", "quantity"),) if no else ()):
+        out.append(dict(name=name, what="badtag", tag=tag))
     for name in NONLINEAR + lin + offs:
         if name not in offs:  # leaving out an offset just declares a prior with fewer offsets (valid)
             out.append(dict(name=name, what="omit"))
